@@ -214,7 +214,8 @@ impl ToZinc for Str {
 impl ToZinc for Ref {
     fn to_zinc<W: std::io::Write>(&self, writer: &mut W) -> Result<()> {
         if let Some(dis) = &self.dis {
-            writer.write_fmt(format_args!("@{} \"{}\"", self.value, dis))?
+            writer.write_fmt(format_args!("@{} ", self.value))?;
+            Str::from(dis.as_str()).to_zinc(writer)?
         } else {
             writer.write_fmt(format_args!("@{}", self.value))?
         }
@@ -252,11 +253,12 @@ impl ToZinc for Uri {
 impl ToZinc for XStr {
     fn to_zinc<W: std::io::Write>(&self, writer: &mut W) -> Result<()> {
         writer.write_fmt(format_args!(
-            "{}{}(\"{}\")",
+            "{}{}(",
             self.r#type[0..1].to_uppercase(),
-            &self.r#type[1..],
-            self.value
+            &self.r#type[1..]
         ))?;
+        Str::from(self.value.as_str()).to_zinc(writer)?;
+        writer.write_all(b")")?;
         Ok(())
     }
 }
